@@ -184,7 +184,10 @@ def mt2(F, R):
             if "first_root_dir_cluster(" not in fsi:
                 problems.append("FAT32 root cluster is not BPB_RootClus: %s" % fsi)
             if "info_location" in fsi or True:
-                if not ("checked_add((*lba_start).0" in fsi.replace("lba_start.0", "(*lba_start).0") or "add(lba_start" in fsi or "checked_add(lba_start.0" in fsi):
+                # parse_volume(block_cache, lba_start, num_blocks): the second parameter, whatever it is called
+                is_lba = lambda z: strip_refs(z)[:2] == ("arg", 2) or (strip_refs(z)[0] == "place" and strip_refs(strip_refs(z)[1])[:2] == ("arg", 2))
+                okloc_ = has_sub(v["fat_specific_info"], lambda q: q[0] == "call" and q[1] and q[1].split("::")[-1] in ("checked_add", "add") and len(q[2]) == 2 and (is_lba(q[2][0]) or is_lba(q[2][1])))
+                if not okloc_:
                     problems.append("FSInfo location is not lba_start + BPB_FSInfo: %s" % fsi)
         else:
             fsi = v["fat_specific_info"]
@@ -211,9 +214,12 @@ def mt2(F, R):
                             okd = okd or peq(fdb, ADD(lay, q))
             if not okd:
                 problems.append("FAT16 first_data_block must be first_root_dir_block + ceil(root_entries*32/512): %s" % tstr(fdb))
-        for fld, acc in (("blocks_per_cluster", "blocks_per_cluster("), ("cluster_count", "total_clusters("), ("lba_start", "lba_start"), ("num_blocks", "num_blocks")):
+        for fld, acc in (("blocks_per_cluster", "blocks_per_cluster("), ("cluster_count", "total_clusters(")):
             if acc not in tstr(v[fld]):
                 problems.append("%s = %s" % (fld, tstr(v[fld])))
+        for fld, argn in (("lba_start", 2), ("num_blocks", 3)):
+            if strip_refs(v[fld])[:2] != ("arg", argn):
+                problems.append("%s = %s (must be parse_volume's parameter %d)" % (fld, tstr(v[fld]), argn))
         R.require(not problems, pv, "layout:" + ft, "; ".join(problems), pv.loc(b), okdetail="layout terms of the %s volume match the FAT specification" % ft)
     # cluster count in Bpb::create_from_bytes: the value stored into cluster_count is, as a formula over the BPB accessors,
     # (total_blocks - (num_fats * fat_size + reserved + ceil(root_entries * 32 / 512))) / blocks_per_cluster - whatever mix of
